@@ -208,14 +208,39 @@ func runUnsat(c *Ctx) {
 		return
 	}
 
+	// when the literal lives in a pure constructor (a step that only assembles the error from what it is handed), the
+	// decision is made where the constructor is called: read U1 there, with the constructor's call as "the literal"
+	ufD, litD, unsatD := uf, ssa.Value(lit), unsat
+	if uf != gb {
+		rets := core.Returns(uf)
+		pure := len(rets) == 1
+		if pure {
+			for _, l := range core.Lits(core.Guards(rets[0].Block())) {
+				if !core.IsLoopBound(l) {
+					pure = false
+				}
+			}
+		}
+		if pure {
+			sites := p.Callers(uf)
+			if len(sites) == 1 {
+				if cv, ok := sites[0].(*ssa.Call); ok {
+					ufD, litD = core.Outer(sites[0].Parent()), ssa.Value(cv)
+					if prm, isPrm := core.Strip(unsat).(*ssa.Parameter); isPrm {
+						unsatD = p.Bind(prm)
+					}
+				}
+			}
+		}
+	}
 	// ---- U1: every success return is dominated by len(unsatisfied) > 0 being false
 	nSucc := 0
-	for _, r := range core.Returns(uf) {
+	for _, r := range core.Returns(ufD) {
 		ev := r.Results[len(r.Results)-1]
 		lits := core.Lits(core.Guards(r.Block()))
 		isErrRet := false
 		for _, s := range core.Sources(ev) {
-			if core.Strip(s) == ssa.Value(lit) {
+			if core.Strip(s) == litD {
 				isErrRet = true
 			}
 		}
@@ -226,11 +251,11 @@ func runUnsat(c *Ctx) {
 			continue
 		}
 		nSucc++
-		ok := lenPositive(lits, unsat, false)
+		ok := lenPositive(lits, unsatD, false)
 		c.R.Add("UNSAT-U1", fmt.Sprintf("graphBuilder|success-return#%d", nSucc), "graphBuilder", p.InstrPos(r), ok,
 			"the graph builder returns without error only where the list of unsatisfied requirements is empty", ternary(ok, "dominated by len(unsatisfied)==0", "not dominated by the emptiness check"), core.LitStrings(lits)...)
 	}
-	if uf != gb {
+	if ufD != gb {
 		// the step's verdict is the graph builder's verdict: every return of the graph builder is an earlier error
 		// return or hands back exactly what the step returned
 		for _, r := range core.Returns(gb) {
@@ -246,21 +271,21 @@ func runUnsat(c *Ctx) {
 				ok = true
 				for _, sv := range srcs {
 					cl, isC := sv.(*ssa.Call)
-					if !isC || cl.Common().StaticCallee() != uf {
+					if !isC || cl.Common().StaticCallee() != ufD {
 						ok = false
 					}
 				}
 			}
 			c.R.Add("UNSAT-U1", fmt.Sprintf("graphBuilder|success-return#%d", nSucc), "graphBuilder", p.InstrPos(r), ok,
-				"the graph builder returns without error only where the list of unsatisfied requirements is empty", ternary(ok, "returns the verdict of "+core.FuncName(uf), "a return bypasses the unsatisfied-requirements check"), core.LitStrings(lits)...)
+				"the graph builder returns without error only where the list of unsatisfied requirements is empty", ternary(ok, "returns the verdict of "+core.FuncName(ufD), "a return bypasses the unsatisfied-requirements check"), core.LitStrings(lits)...)
 		}
 	}
 	// the error return is on the non-empty branch and returns the literal
 	errRetOK := false
-	for _, r := range core.Returns(uf) {
+	for _, r := range core.Returns(ufD) {
 		ev := r.Results[len(r.Results)-1]
 		for _, s := range core.Sources(ev) {
-			if core.Strip(s) == ssa.Value(lit) && lenPositive(core.Lits(core.Guards(r.Block())), unsat, true) {
+			if core.Strip(s) == litD && lenPositive(core.Lits(core.Guards(r.Block())), unsatD, true) {
 				errRetOK = true
 			}
 		}
